@@ -93,6 +93,7 @@ class SymmetryAnalyzer(object):
         self._symmetry_dataset = None
 
         self._conventional_system = None
+        self._conventional_system_3d = None
         self._conventional_wyckoff_letters = None
         self._conventional_equivalent_atoms = None
         self._conventional_lattice_fit = None
@@ -404,6 +405,9 @@ class SymmetryAnalyzer(object):
                 wyckoff_letters,
                 spglib_conv_sys,
             )
+            # The free Wyckoff parameters refer to this full 3D idealized cell,
+            # not to the recentered and minimized 2D cell that is returned.
+            self._conventional_system_3d = ideal_sys.copy()
 
             # Center the system in the non-periodic direction, also taking
             # periodicity into account. Without the centering the structure may
@@ -542,6 +546,8 @@ class SymmetryAnalyzer(object):
         conv_sys = self.get_conventional_system()
         wyckoff_letters = self.get_wyckoff_letters_conventional()
         equivalent_atoms = self.get_equivalent_atoms_conventional()
+        if self._conventional_system_3d is not None:
+            conv_sys = self._conventional_system_3d
         sets = self._get_wyckoff_sets(
             conv_sys,
             space_group,
